@@ -1,1 +1,837 @@
-(* stub: to be written *)
+(* C15 — all return and file modes deliver the same model.
+
+   Model of what `jax2onnx.user_interface.to_onnx(..., return_mode="file")` does to the file system
+   (the nested helper `_save_model_proto`), on top of ASSUMED behaviour of the third-party writer
+   `onnx.save_model` / reader `onnx.load` (trusted base, validated on every run by harness/c15.py):
+
+     * files        : a directory is a finite map  name -> file ; a file is either a serialized model
+                      (`FMain s`; protobuf parse o serialize = id is ASSUMED, the encoding is not modelled)
+                      or raw bytes (`FData d`, the external-data sidecar `<name>.data`).
+     * byte strings : abstract (`BlobOps`), with four laws (`BlobLaws`).  Two implementations are proved to
+                      satisfy the laws: `list N` (`ListOps`, the reference reading "bytes = list of bytes")
+                      and run-length strings (`RleOps`, used by the harness so that 3 MiB parameters stay
+                      small inside Coq).  Every theorem of the Model section holds for BOTH.
+     * onnx writer  : `onnx_variant` = how `onnx.save_model(save_as_external_data=True, location=L)` treats an
+                      existing sidecar (`WAppend`: new payloads are written at the END of the existing file,
+                      offset recorded; `WTruncate`: file restarted) and whether it refuses to run when a file
+                      named L exists RELATIVE TO THE PROCESS CWD (`ov_cwd_check`; onnx 1.22:
+                      `if os.path.exists(location): raise FileExistsError`).  The harness determines the
+                      variant that the installed onnx exhibits; the theorems quantify over all variants.
+     * jax2onnx     : `save_standard` = onnx writer with threshold, THEN remove the sidecar only when the export
+                      referenced no external data and the sidecar is EMPTY (nothing is truncated or removed
+                      before writing); `save_web` = self-contained write, THEN remove any sidecar.
+     * reader       : `load` resolves every external reference by (location, offset, length) against the
+                      CURRENT directory contents, with onnx's bounds checks.
+
+   Scope: one directory, flat names; the sidecar name of `p` is `p ++ ".data"`; one export = one `step`. *)
+From Coq Require Import Arith NArith PArith String List Bool Lia.
+Import ListNotations.
+Open Scope N_scope.
+Local Ltac lia_ := timeout 20 lia.
+
+(* ------------------------------------------------------------------ names *)
+Definition sidecar (p : string) : string := (p ++ ".data")%string.
+
+Lemma length_append (a b : string) :
+  String.length (a ++ b) = (String.length a + String.length b)%nat.
+Proof. induction a as [|c a IH]; simpl; [reflexivity | now rewrite IH]. Qed.
+
+Lemma sidecar_neq p : sidecar p <> p.
+Proof.
+  intro H. apply (f_equal String.length) in H. unfold sidecar in H.
+  rewrite length_append in H. simpl in H. lia_.
+Qed.
+
+Lemma sidecar_eqb_l p : String.eqb (sidecar p) p = false.
+Proof. apply String.eqb_neq. apply sidecar_neq. Qed.
+
+Lemma sidecar_eqb_r p : String.eqb p (sidecar p) = false.
+Proof. apply String.eqb_neq. intro H. symmetry in H. now apply sidecar_neq in H. Qed.
+
+(* ------------------------------------------------------------------ byte strings *)
+Record BlobOps : Type := {
+  blob : Type;
+  blen : blob -> N;
+  bapp : blob -> blob -> blob;
+  bsub : N -> N -> blob -> blob;        (* bsub off len b = b[off : off+len] *)
+  bempty : blob }.
+
+Record BlobLaws (O : BlobOps) : Prop := {
+  len_app : forall a b, blen O (bapp O a b) = blen O a + blen O b;
+  len_empty : blen O (bempty O) = 0;
+  sub_app_l : forall a b off len, off + len <= blen O a -> bsub O off len (bapp O a b) = bsub O off len a;
+  sub_app_r : forall a b, bsub O (blen O a) (blen O b) (bapp O a b) = b }.
+
+(* ------------------------------------------------------------------ assumed third-party behaviour *)
+Inductive writer := WAppend | WTruncate.
+Record onnx_variant := { ov_writer : writer; ov_cwd_check : bool }.
+(* where the process CWD is at the time of the export: the output directory itself, a directory without a
+   file named like the sidecar, or some other directory that happens to contain such a file *)
+Inductive cwd := CwdDest | CwdClean | CwdClash.
+Inductive mode := Standard | Web.
+
+Section Model.
+Variable O : BlobOps.
+Local Notation B := (blob O).
+
+Inductive payload := Inline (b : B) | External (loc : string) (off len : N).
+Record stored := { s_graph : N; s_inits : list (string * payload) }.
+Record model := { m_graph : N; m_inits : list (string * B) }.
+Inductive file := FMain (s : stored) | FData (d : B).
+Definition fs := list (string * file).
+
+Fixpoint lookup (f : fs) (k : string) : option file :=
+  match f with
+  | [] => None
+  | (k', v) :: r => if String.eqb k k' then Some v else lookup r k
+  end.
+Fixpoint remove (f : fs) (k : string) : fs :=
+  match f with
+  | [] => []
+  | (k', v) :: r => if String.eqb k k' then remove r k else (k', v) :: remove r k
+  end.
+Definition update (f : fs) (k : string) (v : file) : fs := (k, v) :: remove f k.
+
+Definition data_of (f : fs) (k : string) : B :=
+  match lookup f k with Some (FData d) => d | _ => bempty O end.
+Definition sidecar_size (f : fs) (p : string) : N := blen O (data_of f (sidecar p)).
+
+(* ---- onnx.save_model(save_as_external_data=True, all_tensors_to_one_file=True, location=loc,
+        size_threshold=thr): convert_model_to_external_data marks every initializer whose raw data is
+        >= thr; write_external_data_tensors writes them IN ORDER at the current end of the data file and
+        records (location, offset, length).  ASSUMED. *)
+Definition is_ext (thr : N) (b : B) : bool := thr <=? blen O b.
+Definition has_external (thr : N) (l : list (string * B)) : bool :=
+  existsb (fun nb => is_ext thr (snd nb)) l.
+
+Fixpoint write_inits (thr : N) (loc : string) (data : B) (l : list (string * B))
+  : B * list (string * payload) :=
+  match l with
+  | [] => (data, [])
+  | (n, b) :: r =>
+      if is_ext thr b then
+        let (d', r') := write_inits thr loc (bapp O data b) r in
+        (d', (n, External loc (blen O data) (blen O b)) :: r')
+      else
+        let (d', r') := write_inits thr loc data r in
+        (d', (n, Inline b) :: r')
+  end.
+
+Definition onnx_save_external (w : writer) (thr : N) (f : fs) (p : string) (m : model) : fs :=
+  let loc := sidecar p in
+  let old := match w with WAppend => data_of f loc | WTruncate => bempty O end in
+  let (d', sl) := write_inits thr loc old (m_inits m) in
+  let f1 := if has_external thr (m_inits m) then update f loc (FData d') else f in
+  update f1 p (FMain {| s_graph := m_graph m; s_inits := sl |}).
+
+(* onnx.save_model(save_as_external_data=False) *)
+Definition inline_all (l : list (string * B)) : list (string * payload) :=
+  map (fun nb => (fst nb, Inline (snd nb))) l.
+Definition onnx_save_plain (f : fs) (p : string) (m : model) : fs :=
+  update f p (FMain {| s_graph := m_graph m; s_inits := inline_all (m_inits m) |}).
+
+(* convert_model_to_external_data: `if os.path.exists(location): raise FileExistsError` — the name is
+   resolved against the process CWD, not against the directory of the model *)
+Definition location_exists (c : cwd) (f : fs) (p : string) : bool :=
+  match c with
+  | CwdDest => match lookup f (sidecar p) with Some _ => true | None => false end
+  | CwdClean => false
+  | CwdClash => true
+  end.
+
+(* ---- jax2onnx: _save_model_proto(model_proto, dest, mode=...) ; None = the export raised (nothing written) *)
+Definition save_standard (v : onnx_variant) (thr : N) (c : cwd) (f : fs) (p : string) (m : model)
+  : option fs :=
+  if ov_cwd_check v && location_exists c f p then None
+  else
+    let f1 := onnx_save_external (ov_writer v) thr f p m in
+    Some (if has_external thr (m_inits m) then f1
+          else match lookup f1 (sidecar p) with
+               | Some (FData d) => if blen O d =? 0 then remove f1 (sidecar p) else f1
+               | _ => f1
+               end).
+
+Definition save_web (f : fs) (p : string) (m : model) : fs :=
+  remove (onnx_save_plain f p m) (sidecar p).
+
+(* ---- onnx.load(path) with load_external_data=True.  ASSUMED. *)
+Definition read_ref (f : fs) (loc : string) (off len : N) : option B :=
+  match lookup f loc with
+  | Some (FData d) =>
+      if (off <=? blen O d) && (len <=? blen O d - off) then Some (bsub O off len d) else None
+  | _ => None
+  end.
+Fixpoint load_inits (f : fs) (l : list (string * payload)) : option (list (string * B)) :=
+  match l with
+  | [] => Some []
+  | (n, pl) :: r =>
+      match (match pl with Inline b => Some b | External loc off len => read_ref f loc off len end),
+            load_inits f r with
+      | Some b, Some r' => Some ((n, b) :: r')
+      | _, _ => None
+      end
+  end.
+Definition load (f : fs) (p : string) : option model :=
+  match lookup f p with
+  | Some (FMain s) =>
+      match load_inits f (s_inits s) with
+      | Some l => Some {| m_graph := s_graph s; m_inits := l |}
+      | None => None
+      end
+  | _ => None
+  end.
+
+(* external references recorded in the main file *)
+Fixpoint refs_in (l : list (string * payload)) : list (string * N * N) :=
+  match l with
+  | [] => []
+  | (_, Inline _) :: r => refs_in r
+  | (_, External loc off len) :: r => (loc, off, len) :: refs_in r
+  end.
+Definition refs_of (f : fs) (p : string) : list (string * N * N) :=
+  match lookup f p with Some (FMain s) => refs_in (s_inits s) | _ => [] end.
+
+(* ---- histories of exports to ONE path *)
+Record step := { st_mode : mode; st_cwd : cwd; st_model : model }.
+Definition save (v : onnx_variant) (thr : N) (f : fs) (p : string) (s : step) : option fs :=
+  match st_mode s with
+  | Standard => save_standard v thr (st_cwd s) f p (st_model s)
+  | Web => Some (save_web f p (st_model s))
+  end.
+
+(* ghost state: the last model whose export did not raise, and where the data region written by that
+   export starts in the sidecar *)
+Record state := { st_fs : fs; st_last : option model; st_lo : N }.
+Definition init (f : fs) : state := {| st_fs := f; st_last := None; st_lo := 0 |}.
+Definition region_start (w : writer) (f : fs) (p : string) : N :=
+  match w with WAppend => sidecar_size f p | WTruncate => 0 end.
+Definition exec (v : onnx_variant) (thr : N) (p : string) (st : state) (s : step) : state :=
+  match save v thr (st_fs st) p s with
+  | Some f' => {| st_fs := f'; st_last := Some (st_model s);
+                  st_lo := region_start (ov_writer v) (st_fs st) p |}
+  | None => st
+  end.
+Definition run (v : onnx_variant) (thr : N) (p : string) (st : state) (h : list step) : state :=
+  fold_left (exec v thr p) h st.
+
+(* a step that cannot raise: web, or a CWD in which no file is named like the sidecar *)
+Definition clean (s : step) : Prop := st_mode s = Web \/ st_cwd s = CwdClean.
+(* scope of the model: the sidecar name does not hold a serialized model *)
+Definition sidecar_is_data (f : fs) (p : string) : Prop :=
+  match lookup f (sidecar p) with Some (FMain _) => False | _ => True end.
+Definition expected_sidecar (md : mode) (thr : N) (m : model) : N :=
+  match md with
+  | Web => 0
+  | Standard => fold_right (fun nb acc => if is_ext thr (snd nb) then blen O (snd nb) + acc else acc) 0 (m_inits m)
+  end.
+
+(* ------------------------------------------------------------------ finite map facts *)
+Lemma lookup_remove_eq f k : lookup (remove f k) k = None.
+Proof.
+  induction f as [|[k' v] r IH]; simpl; [reflexivity|].
+  destruct (String.eqb k k') eqn:E; [exact IH|]. simpl. now rewrite E.
+Qed.
+Lemma lookup_remove_neq f k k' : k <> k' -> lookup (remove f k) k' = lookup f k'.
+Proof.
+  intro Hn. induction f as [|[k0 v] r IH]; simpl; [reflexivity|].
+  destruct (String.eqb k k0) eqn:E.
+  - apply String.eqb_eq in E. subst k0. rewrite IH.
+    destruct (String.eqb k' k) eqn:E2; [apply String.eqb_eq in E2; congruence | reflexivity].
+  - simpl. now rewrite IH.
+Qed.
+Lemma lookup_update_eq f k v : lookup (update f k v) k = Some v.
+Proof. unfold update. simpl. now rewrite String.eqb_refl. Qed.
+Lemma lookup_update_neq f k k' v : k <> k' -> lookup (update f k v) k' = lookup f k'.
+Proof.
+  intro Hn. unfold update. simpl.
+  destruct (String.eqb k' k) eqn:E; [apply String.eqb_eq in E; congruence|].
+  now apply lookup_remove_neq.
+Qed.
+
+(* ------------------------------------------------------------------ theorems (need the laws) *)
+Section Laws.
+Hypothesis L : BlobLaws O.
+
+(* d extends a: a is a prefix of d as far as reads are concerned *)
+Definition ext (a d : B) : Prop :=
+  blen O a <= blen O d /\ forall off len, off + len <= blen O a -> bsub O off len d = bsub O off len a.
+Lemma ext_refl a : ext a a.
+Proof. split; [lia_ | reflexivity]. Qed.
+Lemma ext_trans a b c : ext a b -> ext b c -> ext a c.
+Proof.
+  intros [H1 H2] [H3 H4]. split; [lia_|]. intros off len Hb.
+  rewrite H4 by lia_. now apply H2.
+Qed.
+Lemma ext_app a b : ext a (bapp O a b).
+Proof.
+  split; [rewrite (len_app O L); lia_|]. intros off len Hb. now apply (sub_app_l O L).
+Qed.
+
+Lemma inline_load f l : load_inits f (inline_all l) = Some l.
+Proof.
+  induction l as [|[n b] r IH]; simpl; [reflexivity|]. now rewrite IH.
+Qed.
+Lemma inline_refs l : refs_in (inline_all l) = [].
+Proof. induction l as [|[n b] r IH]; simpl; [reflexivity | exact IH]. Qed.
+
+Lemma write_inits_spec thr loc : forall l data d' sl,
+  write_inits thr loc data l = (d', sl) ->
+  ext data d' /\
+  (forall f d'', lookup f loc = Some (FData d'') -> ext d' d'' -> load_inits f sl = Some l) /\
+  (forall loc' off len, In (loc', off, len) (refs_in sl) ->
+     loc' = loc /\ blen O data <= off /\ off + len <= blen O d') /\
+  (has_external thr l = false -> d' = data /\ sl = inline_all l) /\
+  blen O d' = blen O data +
+              fold_right (fun nb acc => if is_ext thr (snd nb) then blen O (snd nb) + acc else acc) 0 l.
+Proof.
+  induction l as [|[n b] r IH]; intros data d' sl Hw; simpl in Hw.
+  - inversion Hw; subst. split; [apply ext_refl|]. split; [reflexivity|].
+    split; [intros loc' off len []|]. split; [intros _; split; reflexivity|]. simpl. lia_.
+  - simpl. destruct (is_ext thr b) eqn:E.
+    + destruct (write_inits thr loc (bapp O data b) r) as [d1 r1] eqn:W.
+      inversion Hw; subst d' sl. clear Hw.
+      destruct (IH _ _ _ W) as (Hext & Hload & Hrefs & _ & Hlen).
+      assert (Hdb : ext data (bapp O data b)) by apply ext_app.
+      split; [eapply ext_trans; eauto|].
+      split; [|split; [|split]].
+      * intros f d'' Hl He. simpl. unfold read_ref. rewrite Hl.
+        assert (He2 : ext (bapp O data b) d'') by (eapply ext_trans; eauto).
+        destruct He2 as [Hle Hsub].
+        rewrite (len_app O L) in Hle.
+        assert (Hc : (blen O data <=? blen O d'') && (blen O b <=? blen O d'' - blen O data) = true).
+        { apply andb_true_iff; split; apply N.leb_le; lia_. }
+        rewrite Hc. rewrite Hsub by (rewrite (len_app O L); lia_).
+        rewrite (sub_app_r O L). now rewrite (Hload f d'' Hl He).
+      * intros loc' off len Hin. simpl in Hin. destruct Hin as [Heq|Hin].
+        -- inversion Heq; subst. destruct Hext as [Hle _]. rewrite (len_app O L) in Hle.
+           repeat split; lia_.
+        -- destruct (Hrefs _ _ _ Hin) as (Ha & Hb & Hc). rewrite (len_app O L) in Hb.
+           repeat split; [exact Ha | lia_ | exact Hc].
+      * intro Hf. simpl in Hf. discriminate Hf.
+      * rewrite Hlen, (len_app O L). lia_.
+    + destruct (write_inits thr loc data r) as [d1 r1] eqn:W.
+      inversion Hw; subst d' sl. clear Hw.
+      destruct (IH _ _ _ W) as (Hext & Hload & Hrefs & Hnone & Hlen).
+      split; [exact Hext|]. split; [|split; [|split]].
+      * intros f d'' Hl He. simpl. now rewrite (Hload f d'' Hl He).
+      * intros loc' off len Hin. simpl in Hin. now apply Hrefs.
+      * intro Hf. simpl in Hf. destruct (Hnone Hf) as [-> ->]. split; reflexivity.
+      * exact Hlen.
+Qed.
+
+(* what one successful export establishes, whatever the directory looked like before *)
+Definition post (v : onnx_variant) (thr : N) (f : fs) (p : string) (s : step) (f' : fs) : Prop :=
+  load f' p = Some (st_model s) /\
+  (forall loc off len, In (loc, off, len) (refs_of f' p) ->
+     loc = sidecar p /\ region_start (ov_writer v) f p <= off /\ off + len <= sidecar_size f' p) /\
+  (ov_writer v = WAppend -> lookup f' (sidecar p) <> None -> ext (data_of f (sidecar p)) (data_of f' (sidecar p))) /\
+  (forall q, q <> p -> q <> sidecar p -> lookup f' q = lookup f q) /\
+  (sidecar_is_data f p -> sidecar_is_data f' p) /\
+  (sidecar_size f p = 0 \/ st_mode s = Web -> sidecar_size f' p = expected_sidecar (st_mode s) thr (st_model s)).
+
+Lemma web_post v thr f p s : st_mode s = Web -> post v thr f p s (save_web f p (st_model s)).
+Proof.
+  intro Hm. unfold post, save_web, onnx_save_plain.
+  assert (Hp : lookup (remove (update f p (FMain {| s_graph := m_graph (st_model s);
+                 s_inits := inline_all (m_inits (st_model s)) |})) (sidecar p)) p
+               = Some (FMain {| s_graph := m_graph (st_model s); s_inits := inline_all (m_inits (st_model s)) |})).
+  { rewrite lookup_remove_neq by apply sidecar_neq. apply lookup_update_eq. }
+  split; [|split; [|split; [|split; [|split]]]].
+  - unfold load. rewrite Hp. simpl. rewrite inline_load. now destruct (st_model s).
+  - unfold refs_of. rewrite Hp. simpl. rewrite inline_refs. intros loc off len [].
+  - intros _ Hne. now rewrite lookup_remove_eq in Hne.
+  - intros q Hq1 Hq2. rewrite lookup_remove_neq by congruence. now rewrite lookup_update_neq by congruence.
+  - intros _. unfold sidecar_is_data. now rewrite lookup_remove_eq.
+  - intros _. unfold sidecar_size, data_of. rewrite lookup_remove_eq, Hm. simpl. apply (len_empty O L).
+Qed.
+
+Lemma standard_post v thr c f p m f' :
+  save_standard v thr c f p m = Some f' ->
+  post v thr f p {| st_mode := Standard; st_cwd := c; st_model := m |} f'.
+Proof.
+  unfold save_standard. destruct (ov_cwd_check v && location_exists c f p); [discriminate|].
+  intro H. injection H as Hf'.
+  unfold onnx_save_external in *.
+  set (old := match ov_writer v with WAppend => data_of f (sidecar p) | WTruncate => bempty O end) in *.
+  destruct (write_inits thr (sidecar p) old (m_inits m)) as [d' sl] eqn:W.
+  destruct (write_inits_spec _ _ _ _ _ _ W) as (Hext & Hload & Hrefs & Hnone & Hlen).
+  assert (Hold : region_start (ov_writer v) f p = blen O old).
+  { unfold region_start, sidecar_size, old. destruct (ov_writer v); [reflexivity | now rewrite (len_empty O L)]. }
+  unfold post. simpl st_model. simpl st_mode.
+  destruct (has_external thr (m_inits m)) eqn:HE.
+  - (* something was written to the sidecar *)
+    set (st := {| s_graph := m_graph m; s_inits := sl |}) in *. subst f'.
+    assert (Hp : lookup (update (update f (sidecar p) (FData d')) p (FMain st)) p = Some (FMain st))
+      by apply lookup_update_eq.
+    assert (Hs : lookup (update (update f (sidecar p) (FData d')) p (FMain st)) (sidecar p) = Some (FData d')).
+    { rewrite lookup_update_neq by (intro X; symmetry in X; now apply sidecar_neq in X). apply lookup_update_eq. }
+    split; [|split; [|split; [|split; [|split]]]].
+    + unfold load. rewrite Hp. simpl. rewrite (Hload _ d' Hs (ext_refl d')). now destruct m.
+    + unfold refs_of. rewrite Hp. simpl. intros loc off len Hin.
+      destruct (Hrefs _ _ _ Hin) as (Ha & Hb & Hc). unfold sidecar_size, data_of. rewrite Hs. rewrite Hold.
+      repeat split; assumption.
+    + intros Hw _. unfold data_of at 2. rewrite Hs. unfold old in Hext. now rewrite Hw in Hext.
+    + intros q Hq1 Hq2. rewrite lookup_update_neq by congruence. now rewrite lookup_update_neq by congruence.
+    + intros _. unfold sidecar_is_data. now rewrite Hs.
+    + intros [Hz|Hw]; [|discriminate Hw]. unfold sidecar_size, data_of at 1. rewrite Hs. rewrite Hlen.
+      unfold expected_sidecar.
+      assert (Ho : blen O old = 0).
+      { unfold old. destruct (ov_writer v); [exact Hz | apply (len_empty O L)]. }
+      rewrite Ho. lia_.
+  - (* nothing external: the main file is self-contained; an EMPTY sidecar is removed, a non-empty one stays *)
+    destruct (Hnone eq_refl) as [-> ->].
+    set (st := {| s_graph := m_graph m; s_inits := inline_all (m_inits m) |}) in *.
+    set (f1 := update f p (FMain st)) in *.
+    assert (Hp1 : lookup f1 p = Some (FMain st)) by apply lookup_update_eq.
+    assert (Hs1 : lookup f1 (sidecar p) = lookup f (sidecar p)).
+    { unfold f1. apply lookup_update_neq. intro X; symmetry in X; now apply sidecar_neq in X. }
+    assert (Hexp : expected_sidecar Standard thr m = 0).
+    { unfold expected_sidecar. clear - HE. induction (m_inits m) as [|[n b] r IH]; simpl in *; [reflexivity|].
+      apply orb_false_iff in HE. destruct HE as [E1 E2]. rewrite E1. now apply IH. }
+    assert (Hcases : (f' = f1 /\ (sidecar_size f p = 0 -> sidecar_size f1 p = 0)) \/
+                     (f' = remove f1 (sidecar p) /\ exists d, lookup f (sidecar p) = Some (FData d))).
+    { rewrite <- Hf'. rewrite Hs1. destruct (lookup f (sidecar p)) as [[s0|d0]|] eqn:Hl.
+      - left. split; [reflexivity|]. unfold sidecar_size, data_of. now rewrite Hs1, Hl.
+      - destruct (blen O d0 =? 0) eqn:Hz.
+        + right. split; [reflexivity | now exists d0].
+        + left. split; [reflexivity|]. unfold sidecar_size, data_of. now rewrite Hs1, Hl.
+      - left. split; [reflexivity|]. unfold sidecar_size, data_of. now rewrite Hs1, Hl. }
+    clear Hf'. destruct Hcases as [[-> Hsz] | [-> [d0 Hd0]]].
+    + split; [|split; [|split; [|split; [|split]]]].
+      * unfold load. rewrite Hp1. simpl. rewrite inline_load. now destruct m.
+      * unfold refs_of. rewrite Hp1. simpl. rewrite inline_refs. intros loc off len [].
+      * intros _ _. unfold data_of. rewrite Hs1. apply ext_refl.
+      * intros q Hq1 Hq2. unfold f1. now rewrite lookup_update_neq by congruence.
+      * unfold sidecar_is_data. now rewrite Hs1.
+      * intros [Hz|Hw]; [|discriminate Hw]. rewrite Hexp. now apply Hsz.
+    + assert (Hp2 : lookup (remove f1 (sidecar p)) p = Some (FMain st)).
+      { rewrite lookup_remove_neq by apply sidecar_neq. exact Hp1. }
+      split; [|split; [|split; [|split; [|split]]]].
+      * unfold load. rewrite Hp2. simpl. rewrite inline_load. now destruct m.
+      * unfold refs_of. rewrite Hp2. simpl. rewrite inline_refs. intros loc off len [].
+      * intros _ Hne. now rewrite lookup_remove_eq in Hne.
+      * intros q Hq1 Hq2. rewrite lookup_remove_neq by congruence. unfold f1.
+        now rewrite lookup_update_neq by congruence.
+      * intros _. unfold sidecar_is_data. now rewrite lookup_remove_eq.
+      * intros _. rewrite Hexp. unfold sidecar_size, data_of. rewrite lookup_remove_eq. apply (len_empty O L).
+Qed.
+
+Lemma save_post v thr f p s f' : save v thr f p s = Some f' -> post v thr f p s f'.
+Proof.
+  unfold save. destruct s as [md c m]. simpl. destruct md.
+  - apply standard_post.
+  - intro H. inversion H. now apply (web_post v thr f p {| st_mode := Web; st_cwd := c; st_model := m |}).
+Qed.
+
+Lemma clean_succeeds v thr f p s : clean s -> save v thr f p s <> None.
+Proof.
+  unfold clean, save. destruct s as [md c m]. simpl. intros [->| ->].
+  - discriminate.
+  - destruct md; [|discriminate]. unfold save_standard. simpl. rewrite andb_false_r. discriminate.
+Qed.
+Lemma no_check_succeeds v thr f p s : ov_cwd_check v = false -> save v thr f p s <> None.
+Proof.
+  intro Hc. unfold save. destruct (st_mode s); [|discriminate].
+  unfold save_standard. rewrite Hc. simpl. discriminate.
+Qed.
+
+(* ---- induction over the history *)
+Definition inv (v : onnx_variant) (thr : N) (p : string) (f0 : fs) (st : state) : Prop :=
+  match st_last st with
+  | None => st_fs st = f0 /\ st_lo st = 0
+  | Some m =>
+      load (st_fs st) p = Some m /\
+      (forall loc off len, In (loc, off, len) (refs_of (st_fs st) p) ->
+         loc = sidecar p /\ st_lo st <= off /\ off + len <= sidecar_size (st_fs st) p)
+  end /\
+  (forall q, q <> p -> q <> sidecar p -> lookup (st_fs st) q = lookup f0 q) /\
+  (sidecar_is_data f0 p -> sidecar_is_data (st_fs st) p).
+
+Lemma inv_exec v thr p f0 st s : inv v thr p f0 st -> inv v thr p f0 (exec v thr p st s).
+Proof.
+  intros (Hi & Hfr & Hwf). unfold exec. destruct (save v thr (st_fs st) p s) as [f'|] eqn:Hs.
+  - destruct (save_post _ _ _ _ _ _ Hs) as (Hl & Hr & _ & Hq & Hw & _).
+    unfold inv. simpl. repeat split.
+    + exact Hl.
+    + now apply (Hr loc off len).
+    + now apply (Hr loc off len).
+    + now apply (Hr loc off len).
+    + intros q Hq1 Hq2. rewrite Hq by assumption. now apply Hfr.
+    + intro H0. apply Hw. now apply Hwf.
+  - unfold inv. now repeat split.
+Qed.
+
+Lemma inv_run v thr p f0 h : forall st, inv v thr p f0 st -> inv v thr p f0 (run v thr p st h).
+Proof.
+  unfold run. induction h as [|s h IH]; intros st Hi; simpl; [exact Hi|].
+  apply IH. now apply inv_exec.
+Qed.
+Lemma inv_init v thr p f0 : inv v thr p f0 (init f0).
+Proof. unfold inv, init. simpl. repeat split; auto. Qed.
+
+Lemma run_snoc v thr p st h s : run v thr p st (h ++ [s]) = exec v thr p (run v thr p st h) s.
+Proof. unfold run. now rewrite fold_left_app. Qed.
+
+(* T1: after ANY history (any mix of modes, sizes, CWDs, raising exports) the file at p loads to the model of
+   the last export that did not raise, every initializer byte-identical; nothing but p and its sidecar is
+   touched. *)
+Theorem G_load_after_history : forall v thr p f0 h,
+  let st := run v thr p (init f0) h in
+  match st_last st with
+  | Some m => load (st_fs st) p = Some m
+  | None => st_fs st = f0
+  end.
+Proof.
+  intros v thr p f0 h st. destruct (inv_run v thr p f0 h (init f0) (inv_init v thr p f0)) as (Hi & _).
+  fold st in Hi. destruct (st_last st); tauto.
+Qed.
+
+Theorem G_load_after_save_partial : forall v thr p f0 h s,
+  save v thr (st_fs (run v thr p (init f0) h)) p s <> None ->
+  load (st_fs (run v thr p (init f0) (h ++ [s]))) p = Some (st_model s).
+Proof.
+  intros v thr p f0 h s Hs. rewrite run_snoc. unfold exec.
+  destruct (save v thr (st_fs (run v thr p (init f0) h)) p s) as [f'|] eqn:E; [|congruence].
+  simpl. now destruct (save_post _ _ _ _ _ _ E) as (Hl & _).
+Qed.
+
+Theorem G_load_after_save_clean : forall v thr p f0 h s,
+  clean s -> load (st_fs (run v thr p (init f0) (h ++ [s]))) p = Some (st_model s).
+Proof. intros. apply G_load_after_save_partial. now apply clean_succeeds. Qed.
+
+Theorem G_load_after_save_no_cwd_check : forall v thr p f0 h s,
+  ov_cwd_check v = false -> load (st_fs (run v thr p (init f0) (h ++ [s]))) p = Some (st_model s).
+Proof. intros. apply G_load_after_save_partial. now apply no_check_succeeds. Qed.
+
+(* T2: web export after any history: the main file holds no external reference, no sidecar is left, and the
+   main file ALONE (a directory containing nothing else) loads to the exported model *)
+Theorem G_web_self_contained : forall v thr p f0 h s,
+  st_mode s = Web ->
+  let f' := st_fs (run v thr p (init f0) (h ++ [s])) in
+  refs_of f' p = [] /\ lookup f' (sidecar p) = None /\
+  exists mf, lookup f' p = Some mf /\ load [(p, mf)] p = Some (st_model s).
+Proof.
+  intros v thr p f0 h s Hm f'. unfold f'. rewrite run_snoc. unfold exec, save. rewrite Hm. simpl.
+  set (f := st_fs (run v thr p (init f0) h)).
+  unfold save_web, onnx_save_plain.
+  set (mf := FMain {| s_graph := m_graph (st_model s); s_inits := inline_all (m_inits (st_model s)) |}).
+  assert (Hp : lookup (remove (update f p mf) (sidecar p)) p = Some mf).
+  { rewrite lookup_remove_neq by apply sidecar_neq. apply lookup_update_eq. }
+  split; [|split].
+  - unfold refs_of. rewrite Hp. simpl. apply inline_refs.
+  - apply lookup_remove_eq.
+  - exists mf. split; [exact Hp|]. unfold load. simpl. rewrite String.eqb_refl. simpl.
+    rewrite inline_load. now destruct (st_model s).
+Qed.
+
+(* T3: after any history, every external reference of the main file names the sidecar of p and lies inside
+   [st_lo, size): the region the LAST non-raising export wrote.  st_lo is the size the sidecar had before that
+   export (append writer) or 0 (truncating writer). *)
+Theorem G_stale_sidecar_unreferenced : forall v thr p f0 h m,
+  let st := run v thr p (init f0) h in
+  st_last st = Some m ->
+  forall loc off len, In (loc, off, len) (refs_of (st_fs st) p) ->
+    loc = sidecar p /\ st_lo st <= off /\ off + len <= sidecar_size (st_fs st) p.
+Proof.
+  intros v thr p f0 h m st Hl. destruct (inv_run v thr p f0 h (init f0) (inv_init v thr p f0)) as (Hi & _).
+  fold st in Hi. rewrite Hl in Hi. now destruct Hi.
+Qed.
+
+(* ... and with the append writer the bytes below st_lo are exactly the old sidecar: an export only ever adds *)
+Theorem G_append_keeps_old_bytes : forall v thr f p s f',
+  ov_writer v = WAppend -> save v thr f p s = Some f' -> lookup f' (sidecar p) <> None ->
+  region_start (ov_writer v) f p = blen O (data_of f (sidecar p)) /\
+  ext (data_of f (sidecar p)) (data_of f' (sidecar p)).
+Proof.
+  intros v thr f p s f' Hw Hs Hne. destruct (save_post _ _ _ _ _ _ Hs) as (_ & _ & He & _).
+  split; [now rewrite Hw | now apply He].
+Qed.
+
+Theorem G_frame : forall v thr p f0 h q,
+  q <> p -> q <> sidecar p -> lookup (st_fs (run v thr p (init f0) h)) q = lookup f0 q.
+Proof.
+  intros v thr p f0 h q H1 H2.
+  destruct (inv_run v thr p f0 h (init f0) (inv_init v thr p f0)) as (_ & Hf & _). now apply Hf.
+Qed.
+
+Theorem G_sidecar_stays_data : forall v thr p f0 h,
+  sidecar_is_data f0 p -> sidecar_is_data (st_fs (run v thr p (init f0) h)) p.
+Proof.
+  intros v thr p f0 h. destruct (inv_run v thr p f0 h (init f0) (inv_init v thr p f0)) as (_ & _ & Hw). exact Hw.
+Qed.
+
+(* the sidecar is exactly what a fresh export would produce — only when it was absent/empty before, or web *)
+Theorem G_sidecar_exact_partial : forall v thr f p s f',
+  save v thr f p s = Some f' ->
+  sidecar_size f p = 0 \/ st_mode s = Web ->
+  sidecar_size f' p = expected_sidecar (st_mode s) thr (st_model s).
+Proof.
+  intros v thr f p s f' Hs Hc. destruct (save_post _ _ _ _ _ _ Hs) as (_ & _ & _ & _ & _ & He). now apply He.
+Qed.
+
+End Laws.
+End Model.
+
+Arguments Inline {O} _.
+Arguments External {O} _ _ _.
+Arguments FMain {O} _.
+Arguments FData {O} _.
+
+(* ================================================================== instance 1: bytes = list N *)
+Definition bytes := list N.
+Definition ListOps : BlobOps :=
+  {| blob := bytes;
+     blen := fun l => N.of_nat (length l);
+     bapp := @app N;
+     bsub := fun off len l => firstn (N.to_nat len) (skipn (N.to_nat off) l);
+     bempty := [] |}.
+
+Lemma ListLaws : BlobLaws ListOps.
+Proof.
+  constructor; simpl.
+  - intros a b. rewrite app_length. lia_.
+  - reflexivity.
+  - intros a b off len H.
+    rewrite skipn_app, firstn_app.
+    replace (N.to_nat off - length a)%nat with 0%nat by lia_. simpl skipn at 2.
+    rewrite skipn_length.
+    replace (N.to_nat len - (length a - N.to_nat off))%nat with 0%nat by lia_.
+    simpl. apply app_nil_r.
+  - intros a b. rewrite !Nnat.Nat2N.id. rewrite skipn_app, Nat.sub_diag. simpl.
+    rewrite skipn_all. simpl. apply firstn_all.
+Qed.
+
+(* ================================================================== instance 2: run-length strings *)
+(* (tag, count) runs with positive counts; used by the harness to evaluate the model at true sizes *)
+Definition rle := list (N * positive).
+Local Arguments N.add : simpl never.
+Local Arguments N.sub : simpl never.
+Fixpoint rle_len (r : rle) : N :=
+  match r with [] => 0 | (_, c) :: r' => N.pos c + rle_len r' end.
+Fixpoint rle_drop (off : N) (r : rle) : rle :=
+  match r with
+  | [] => []
+  | (t, c) :: r' =>
+      match off with
+      | 0 => r
+      | N.pos o => if (c <=? o)%positive then rle_drop (N.pos o - N.pos c) r'
+                   else (t, (c - o)%positive) :: r'
+      end
+  end.
+Fixpoint rle_take (len : N) (r : rle) : rle :=
+  match r with
+  | [] => []
+  | (t, c) :: r' =>
+      match len with
+      | 0 => []
+      | N.pos l => if (c <=? l)%positive then (t, c) :: rle_take (N.pos l - N.pos c) r'
+                   else [(t, l)]
+      end
+  end.
+Definition RleOps : BlobOps :=
+  {| blob := rle; blen := rle_len; bapp := @app (N * positive);
+     bsub := fun off len r => rle_take len (rle_drop off r); bempty := [] |}.
+
+Lemma rle_len_app a b : rle_len (a ++ b) = rle_len a + rle_len b.
+Proof. induction a as [|[t c] a IH]; simpl; [reflexivity | rewrite IH; lia_]. Qed.
+Lemma rle_take_0 r : rle_take 0 r = [].
+Proof. destruct r as [|[t c] r]; reflexivity. Qed.
+Lemma rle_take_all b : rle_take (rle_len b) b = b.
+Proof.
+  induction b as [|[t c] b IH]; simpl; [reflexivity|].
+  destruct (N.pos c + rle_len b) as [|l] eqn:E; [lia_|].
+  destruct (c <=? l)%positive eqn:E2.
+  - replace (N.pos l - N.pos c) with (rle_len b) by lia_. now rewrite IH.
+  - apply Pos.leb_gt in E2. lia_.
+Qed.
+Lemma rle_take_app a b : forall len, len <= rle_len a -> rle_take len (a ++ b) = rle_take len a.
+Proof.
+  induction a as [|[t c] a IH]; intros len H; simpl in *.
+  - assert (len = 0) by lia_. subst. apply rle_take_0.
+  - destruct len as [|l]; [reflexivity|].
+    destruct (c <=? l)%positive eqn:E; [|reflexivity].
+    apply Pos.leb_le in E. rewrite IH by lia_. reflexivity.
+Qed.
+Lemma rle_drop_app_r a b : rle_drop (rle_len a) (a ++ b) = b.
+Proof.
+  induction a as [|[t c] a IH]; simpl.
+  - destruct b as [|[t c] b]; reflexivity.
+  - destruct (N.pos c + rle_len a) as [|o] eqn:E; [lia_|].
+    destruct (c <=? o)%positive eqn:E2.
+    + replace (N.pos o - N.pos c) with (rle_len a) by lia_. exact IH.
+    + apply Pos.leb_gt in E2. lia_.
+Qed.
+
+Lemma RleLaws : BlobLaws RleOps.
+Proof.
+  constructor; simpl.
+  - apply rle_len_app.
+  - reflexivity.
+  - intros a b. induction a as [|[t c] a IH]; intros off len H; simpl in *.
+    + assert (off = 0) by lia_. assert (len = 0) by lia_. subst.
+      rewrite !rle_take_0. reflexivity.
+    + destruct off as [|o].
+      * change ((t, c) :: a ++ b) with (((t, c) :: a) ++ b). apply rle_take_app. simpl. lia_.
+      * destruct (c <=? o)%positive eqn:E.
+        -- apply Pos.leb_le in E. apply IH. lia_.
+        -- apply Pos.leb_gt in E.
+           change ((t, (c - o)%positive) :: a ++ b) with (((t, (c - o)%positive) :: a) ++ b).
+           apply rle_take_app. simpl. lia_.
+  - intros a b. rewrite rle_drop_app_r. apply rle_take_all.
+Qed.
+
+(* ================================================================== the theorems, for bytes = list N *)
+Notation Lmodel := (model ListOps).
+Notation Lstep := (step ListOps).
+Notation Lfs := (fs ListOps).
+
+Definition load_after_history := G_load_after_history ListOps ListLaws.
+Definition load_after_save_partial := G_load_after_save_partial ListOps ListLaws.
+Definition load_after_save_clean := G_load_after_save_clean ListOps ListLaws.
+Definition load_after_save_no_cwd_check := G_load_after_save_no_cwd_check ListOps ListLaws.
+Definition web_self_contained := G_web_self_contained ListOps.
+Definition stale_sidecar_unreferenced := G_stale_sidecar_unreferenced ListOps ListLaws.
+Definition append_keeps_old_bytes := G_append_keeps_old_bytes ListOps ListLaws.
+Definition frame := G_frame ListOps ListLaws.
+Definition sidecar_stays_data := G_sidecar_stays_data ListOps ListLaws.
+Definition sidecar_exact_partial := G_sidecar_exact_partial ListOps ListLaws.
+(* the same, for the run-length instance evaluated by the harness *)
+Definition rle_load_after_history := G_load_after_history RleOps RleLaws.
+Definition rle_stale_sidecar_unreferenced := G_stale_sidecar_unreferenced RleOps RleLaws.
+
+(* ---- witnesses (threshold 2: a 3-byte parameter spills, a 1-byte parameter does not) *)
+Definition onnx_1_22 : onnx_variant := {| ov_writer := WAppend; ov_cwd_check := true |}.
+Definition mk (g : N) (b : bytes) : Lmodel := Build_model ListOps g [("w"%string, b)].
+Definition stp (md : mode) (c : cwd) (m : Lmodel) : Lstep := Build_step ListOps md c m.
+Definition big1 := mk 1 [11; 12; 13].
+Definition big2 := mk 2 [21; 22; 23].
+Definition small3 := mk 3 [31].
+Definition P := "m.onnx"%string.
+
+(* full-strength statement: "load p = the model of the LAST export" for every history and every CWD.
+   FALSE of the unchanged code: a second standard export issued from inside the output directory raises
+   FileExistsError (onnx checks `location` relative to the CWD) and the file still holds the first model. *)
+Definition load_after_save_statement : Prop :=
+  forall (v : onnx_variant) thr p (f0 : Lfs) h s,
+    load ListOps (st_fs ListOps (run ListOps v thr p (init ListOps f0) (h ++ [s]))) p = Some (st_model ListOps s).
+
+Theorem load_after_save_refuted : ~ load_after_save_statement.
+Proof.
+  intro H.
+  specialize (H onnx_1_22 2 P [] [stp Standard CwdDest big1] (stp Standard CwdDest big2)).
+  vm_compute in H. discriminate H.
+Qed.
+
+(* the raising export is loud and leaves the previous export intact *)
+Example refuted_witness_state :
+  let st := run ListOps onnx_1_22 2 P (init ListOps []) [stp Standard CwdDest big1; stp Standard CwdDest big2] in
+  st_last ListOps st = Some big1 /\ load ListOps (st_fs ListOps st) P = Some big1.
+Proof. vm_compute. split; reflexivity. Qed.
+
+(* "the directory holds exactly what a fresh export would write" is FALSE (observation, not part of C15):
+   with the append writer a second large export doubles the sidecar, and a following small export leaves the
+   whole sidecar behind, unreferenced *)
+Definition sidecar_exact_statement : Prop :=
+  forall (v : onnx_variant) thr p (f : Lfs) s f',
+    save ListOps v thr f p s = Some f' ->
+    sidecar_size ListOps f' p = expected_sidecar ListOps (st_mode ListOps s) thr (st_model ListOps s).
+
+Theorem sidecar_exact_refuted : ~ sidecar_exact_statement.
+Proof.
+  intro H.
+  assert (E := H onnx_1_22 2 P [(sidecar P, FData (O := ListOps) [11; 12; 13])] (stp Standard CwdClean big2)
+                 _ eq_refl).
+  vm_compute in E. discriminate E.
+Qed.
+
+Example sidecar_grows :
+  let st := run ListOps onnx_1_22 2 P (init ListOps []) [stp Standard CwdClean big1; stp Standard CwdClean big2] in
+  sidecar_size ListOps (st_fs ListOps st) P = 6 /\ refs_of ListOps (st_fs ListOps st) P = [(sidecar P, 3, 3)] /\
+  st_lo ListOps st = 3 /\ load ListOps (st_fs ListOps st) P = Some big2.
+Proof. vm_compute. repeat split; reflexivity. Qed.
+
+Example sidecar_left_behind :
+  let st := run ListOps onnx_1_22 2 P (init ListOps [])
+              [stp Standard CwdClean big1; stp Standard CwdClean big2; stp Standard CwdClean small3] in
+  sidecar_size ListOps (st_fs ListOps st) P = 6 /\ refs_of ListOps (st_fs ListOps st) P = [] /\
+  load ListOps (st_fs ListOps st) P = Some small3.
+Proof. vm_compute. repeat split; reflexivity. Qed.
+
+Example web_removes_sidecar :
+  let st := run ListOps onnx_1_22 2 P (init ListOps []) [stp Standard CwdClean big1; stp Web CwdDest big2] in
+  map fst (st_fs ListOps st) = [P] /\ load ListOps (st_fs ListOps st) P = Some big2.
+Proof. vm_compute. split; reflexivity. Qed.
+
+(* non-vacuity: clean steps exist, raising steps exist, both variants of the hypothesis are satisfiable *)
+Example clean_nonvacuous : clean ListOps (stp Standard CwdClean big1) /\ clean ListOps (stp Web CwdDest big1).
+Proof. split; [right | left]; reflexivity. Qed.
+Example raising_step_exists :
+  save ListOps onnx_1_22 2 [(sidecar P, FData (O := ListOps) [0])] P (stp Standard CwdDest small3) = None.
+Proof. reflexivity. Qed.
+Example threshold_is_inclusive :
+  refs_of ListOps (st_fs ListOps (run ListOps onnx_1_22 3 P (init ListOps []) [stp Standard CwdClean big1])) P
+    = [(sidecar P, 0, 3)] /\
+  refs_of ListOps (st_fs ListOps (run ListOps onnx_1_22 4 P (init ListOps []) [stp Standard CwdClean big1])) P = [].
+Proof. vm_compute. split; reflexivity. Qed.
+
+(* ================================================================== tie support (harness/c15.py) *)
+(* one observation per step: (raised, main file present, sidecar size, external refs (offset,length),
+   load p = last non-raising model) *)
+Definition rle_eqb (a b : rle) : bool :=
+  (fix go (a b : rle) : bool :=
+     match a, b with
+     | [], [] => true
+     | (t, c) :: a', (u, d) :: b' => (t =? u) && (c =? d)%positive && go a' b'
+     | _, _ => false
+     end) a b.
+Fixpoint inits_eqb (a b : list (string * rle)) : bool :=
+  match a, b with
+  | [], [] => true
+  | (n, x) :: a', (k, y) :: b' => String.eqb n k && rle_eqb x y && inits_eqb a' b'
+  | _, _ => false
+  end.
+Definition rmodel_eqb (a b : model RleOps) : bool :=
+  (m_graph RleOps a =? m_graph RleOps b) && inits_eqb (m_inits RleOps a) (m_inits RleOps b).
+
+Definition obs := (bool * bool * option N * list (N * N) * bool)%type.
+Definition observe (p : string) (raised : bool) (st : state RleOps) : obs :=
+  let f := st_fs RleOps st in
+  (raised,
+   match lookup RleOps f p with Some _ => true | None => false end,
+   match lookup RleOps f (sidecar p) with
+   | Some (FData d) => Some (rle_len d) | Some (FMain _) => Some 0 | None => None end,
+   map (fun r => (snd (fst r), snd r)) (refs_of RleOps f p),
+   match st_last RleOps st, load RleOps f p with
+   | Some m, Some m' => rmodel_eqb m m'
+   | None, None => true
+   | _, _ => false
+   end).
+Fixpoint run_obs (v : onnx_variant) (thr : N) (p : string) (st : state RleOps) (h : list (step RleOps))
+  : list obs :=
+  match h with
+  | [] => []
+  | s :: r =>
+      let raised := match save RleOps v thr (st_fs RleOps st) p s with Some _ => false | None => true end in
+      let st' := exec RleOps v thr p st s in
+      observe p raised st' :: run_obs v thr p st' r
+  end.
+Definition obs_eqb (a b : obs) : bool :=
+  let '(r1, m1, s1, l1, o1) := a in
+  let '(r2, m2, s2, l2, o2) := b in
+  Bool.eqb r1 r2 && Bool.eqb m1 m2 &&
+  match s1, s2 with Some x, Some y => x =? y | None, None => true | _, _ => false end &&
+  (fix go (a b : list (N * N)) : bool :=
+     match a, b with
+     | [], [] => true
+     | (x, y) :: a', (u, w) :: b' => (x =? u) && (y =? w) && go a' b'
+     | _, _ => false
+     end) l1 l2 &&
+  Bool.eqb o1 o2.
+Fixpoint obs_list_eqb (a b : list obs) : bool :=
+  match a, b with
+  | [], [] => true
+  | x :: a', y :: b' => obs_eqb x y && obs_list_eqb a' b'
+  | _, _ => false
+  end.
+(* a blob of `n` bytes all tagged `t` *)
+Definition rblob (t n : N) : rle := match n with 0 => [] | N.pos c => [(t, c)] end.
